@@ -153,6 +153,20 @@ func (w *World) NewRow(r *core.Rand, ei int) *RowRec {
 	return rec
 }
 
+// NewRowWith is NewRow with a hook that edits the generated row before it is
+// registered (so that its partition id and indexed values reflect the edit).
+func (w *World) NewRowWith(r *core.Rand, ei int, edit func(row map[string]any)) *RowRec {
+	w.nvid++
+	vid := gen.Vid(w.Case, w.nvid)
+	row := w.Vocab.Row(r, vid)
+	edit(row)
+	rec, err := w.Register(row, ei)
+	if err != nil {
+		panic(fmt.Sprintf("generated row not marshalable: %v", err))
+	}
+	return rec
+}
+
 // Register computes the ledger record for a row with a _vid.
 func (w *World) Register(row map[string]any, ei int) (*RowRec, error) {
 	b, err := json.Marshal(row)
